@@ -23,9 +23,14 @@ SNIPPETS = ["@charset ", "@charset", "url(", "URL(", "u\\rl(", "/*", "*/", "and(
             "'a\\'b'", '"x', "'y", "\r\n", "url(x)", "url( 'x' )", 'url("x', "url('y", "url(z", "@font-face", "@page",
             "@namespace", "@variables", "progid:DXImageTransform.Microsoft.x(", "a:b(", "\\", "\\\\", "e3", "1e3",
             "@\\6d\nedia", "@\\69\nmport x", "@\\78\ny", "(16\n/\n9)", "16 / 9)", "\\41\n", "\\41\r\n", "a\\\nb", "#\\31\n2",
-            "1\\65\nm", "u\\72\nl(x)", "'\\\n'", "\"a\\\r\nb\""]
+            "1\\65\nm", "url(http://example.com/static/images/header background.png)", "url(aaaaaaaaaaaaaaaaaaaaaaaaaaaaaa b)",
+            "/* a\n b\n c */", "/*\n*/", "u\\72\nl(x)", "'\\\n'", "\"a\\\r\nb\""]
 
 COMPLETIONS = ["", "*/", '"', "'", "')", '")', ")"]
+
+
+BUDGET_S = 5      # wall-clock seconds per text, enforced by lib.budget_map (texts are <= 60 characters;
+                  # the unchanged tree needs milliseconds)
 
 
 def impl_tokens(case):
@@ -35,6 +40,10 @@ def impl_tokens(case):
         return [list(t) for t in Tokenizer(doComments=bool(dc)).tokenize(text, fullsheet=bool(fs))]
     except Exception as e:  # noqa
         return ["EXC", type(e).__name__, str(e)[:200]]
+
+
+def _overrun(case):
+    return ["EXC", "TimeBudget", "tokenizer did not finish within %d s" % BUDGET_S]
 
 
 def impl_interleaved(case):
@@ -89,7 +98,29 @@ def oracle(dc, fs, text, toks):
     Only for escape-free text (no backslash), where token values are the raw matches."""
     if toks and toks[0] == "EXC":
         return "tokenizer raised %s: %s" % (toks[1], toks[2])
-    if "\\" in text or not dc:
+    if not dc:
+        ref = impl_tokens((1, fs, text))
+        if ref and ref[0] == "EXC":
+            return None
+        want = [t for t in ref if t[0] != "COMMENT"]
+        if fs and len(ref) >= 2 and ref[-2][0] == "COMMENT":
+            # is the last comment one that full-sheet mode completed?  its source text runs from its reported
+            # position to the end of the text; with doComments=False the code tokenizes that content (modelled as is)
+            ln, col = ref[-2][2], ref[-2][3]
+            lines_ = text.split("\n")
+            off = sum(len(x) + 1 for x in lines_[:ln - 1]) + col - 1
+            if text[0:1] in ("\xfe", "\xef") and ref[0][0] == "BOM" and ln == 1:
+                off += len(ref[0][1])
+            tail = text[off:]
+            if not (len(tail) >= 4 and tail.endswith("*/")):
+                return None
+        if toks != want:
+            for i, (a, b) in enumerate(itertools.zip_longest(toks, want)):
+                if a != b:
+                    return ("doComments=False: token %d is %r, the doComments=True stream without its comments has %r "
+                            "(values and positions must not depend on the setting)" % (i, a, b))
+        return None
+    if "\\" in text:
         return None
     vals = "".join(t[1] for t in toks)
     if not fs:
@@ -166,12 +197,19 @@ def run(ctx):
     corpus = json.loads((ctx_path("corpus/C08.json")).read_text()) if ctx_path("corpus/C08.json").exists() else []
     cases, n_exh = gen_cases(ctx, thorough)
     cases = [tuple(c) for c in corpus] + cases
-    impl = ctx.pool_map(impl_tokens, cases, chunksize=512)
+    from harness.lib import budget_map
+    impl = budget_map(impl_tokens, cases, budget_s=BUDGET_S, procs=14, overrun=_overrun)
     mism, nontrivial, viol = [], set(), 0
     if binary:
-        lines = ["%d %d %s" % (dc, fs, cps(t)) for dc, fs, t in cases]
-        out = ctx.run_binary(binary, lines, shards=14)
+        ok_idx = [k for k, i in enumerate(impl) if not (i and i[0] == "EXC" and i[1] == "TimeBudget")]
+        lines = ["%d %d %s" % (cases[k][0], cases[k][1], cps(cases[k][2])) for k in ok_idx]
+        out_ok = ctx.run_binary(binary, lines, shards=14)
+        out = ["NONE"] * len(cases)
+        for k, o in zip(ok_idx, out_ok):
+            out[k] = o
         for case, i, o in zip(cases, impl, out):
+            if i and i[0] == "EXC" and i[1] == "TimeBudget":
+                continue
             m = model_tokens(o)
             d = compare(case, i, m)
             if d:
@@ -210,7 +248,7 @@ def run(ctx):
     for _ in range(3000 if not thorough else 20000):
         a, b2 = rng2.choice(multi), rng2.choice(multi)
         pairs.append((rng2.choice([0, 1]), a[2], b2[2]))
-    inter = ctx.pool_map(impl_interleaved, pairs, chunksize=256)
+    inter = budget_map(impl_interleaved, pairs, budget_s=2 * BUDGET_S, procs=14, overrun=_overrun)
     fresh = {}
     for (fs, t1, t2), r in zip(pairs, inter):
         if r and r[0] == "EXC":
@@ -245,7 +283,7 @@ def run(ctx):
                 t = "".join(rng.choice(SNIPPETS) if rng.random() < 0.4 else rng.choice(ALPHABET)
                             for _ in range(rng.randint(1, 12))).replace("\\", "")
                 batch.append((1, rng.choice([0, 1]), t))
-            res = ctx.pool_map(impl_tokens, batch, chunksize=256)
+            res = budget_map(impl_tokens, batch, budget_s=BUDGET_S, procs=14, overrun=_overrun)
             for case, i in zip(batch, res):
                 d = oracle(case[0], case[1], case[2], i)
                 if d and not ctx.match_known(d + " :: " + json.dumps(case[2])):
@@ -311,8 +349,9 @@ def replay(ctx, path):
     bad = 0
     for v in rep.get("violations", []):
         w = v["witness"]
-        toks = impl_tokens((w["dc"], w["fullsheet"], w["text"]))
-        d = oracle_ext(w, toks)
+        from harness.lib import budget_map
+        toks = budget_map(impl_tokens, [(w["dc"], w["fullsheet"], w["text"])], budget_s=BUDGET_S, procs=1, overrun=_overrun)[0]
+        d = oracle(w["dc"], w["fullsheet"], w["text"], toks) if toks and toks[0] == "EXC" else oracle_ext(w, toks)
         print("replay %r -> %s" % (w["text"], d or "holds"))
         bad += bool(d)
     return 1 if bad else 0
